@@ -15,7 +15,7 @@ SHARDS = {'quick': 4, 'thorough': 16}
 N = {'quick': 15000, 'thorough': 300000}
 BATCH = 400
 
-TRIGGERS = ['2019', '1999', '2000', '19', '20', '201', '#1', '#12', '#1a', 'No.1', 'no.1', 'No.', '<3', 'i<3', 'I<3', ';p', ':p', '*0*', 'Mr.', 'St.', 'dr.',
+TRIGGERS = ['DR.', 'NO.1', ';P', ':P', 'mR.', 'sT.', 'ST.', 'NO.', 'I<3x', 'dR.', '2019', '1999', '2000', '19', '20', '201', '#1', '#12', '#1a', 'No.1', 'no.1', 'No.', '<3', 'i<3', 'I<3', ';p', ':p', '*0*', 'Mr.', 'St.', 'dr.',
             'www.', 'http://', 'http://www.', '.com', '.org', '.co.uk', '.ru', '.nl', '.se', '.nl.se', '@', '@gmail.com', 'bob@aol.com', 'x.y@mail.ru',
             'google.com', 'site.net/path', '1qaz', 'qwer', '1qaz2wsx', 'zaq1', 'asdf', 'qwerty', '1234', '123;', 'drew', 'fred', 'were', 'tyui', 'ty78',
             'йцук', '1йцу', 'й123', 'фыва1', '!qaz', 'QWER1', '12qw', 'q1w2', 'poiu0', '0987', 'e3r4', 'wert5', '3edc', 'y6t5']
